@@ -334,3 +334,30 @@ package core
 //@ func (r *ExecutionResult) Failed() (f bool)
 //@   serves C37
 //@   ensures f == (r.Err != nil)
+
+// C32: a transfer debits the sender and credits the recipient with one and the same amount,
+// in that order, and nothing else; CanTransfer is exactly "balance covers the amount".
+//@ directive pure-observer core/vm.StateDB).GetBalance
+//@ directive readonly-args core/vm.StateDB).SubBalance
+//@ directive readonly-args core/vm.StateDB).AddBalance
+//@ directive readonly-args core/types.EthTransferLog
+//@ directive readonly-args core/vm.StateDB).AddLog
+//@ func Transfer(db vm.StateDB, sender, recipient common.Address, amount *uint256.Int, rules *params.Rules)
+//@   serves C32
+//@   requires amount != nil && rules != nil
+//@   mutates
+//@   ghostvar debited int = 0
+//@   ghostvar credited int = 0
+//@   ghostvar ndebit int = 0
+//@   ghostvar ncredit int = 0
+//@   oncall SubBalance: debited = debited + u256val(arg2); ndebit = ndebit + 1
+//@   oncall AddBalance: credited = credited + u256val(arg2); ncredit = ncredit + 1
+//@   ensures debited == old(u256val(amount)) && credited == old(u256val(amount)) && ndebit == 1 && ncredit == 1
+//@   atcall SubBalance#1 requires arg1 == sender
+//@   atcall AddBalance#1 requires arg1 == recipient
+//@   atcall AddBalance#1 requires ndebit == 1
+
+//@ func CanTransfer(db vm.StateDB, addr common.Address, amount *uint256.Int) (ok bool)
+//@   serves C32
+//@   requires amount != nil
+//@   ensures ok == (u256val(observe(GetBalance, db, addr)) >= u256val(amount))
